@@ -27,7 +27,7 @@ var rec = vstats.New("TestC07Drain")
 // earliest timer) and applies the C07 oracle.
 func drainAndCheck(t *rapid.T, w *lstore.World, c *vstats.Case, deep bool) {
 	sy := w.Syn()
-	releasePending := w.ReleaseWakeupPending() || sy.R != nil
+	releasePending := w.ReleaseWakeupPending() || sy.R != nil || w.St.Alloc.InUse() != len(w.Live)
 	putPending := w.PutWakeupPending() || sy.S != nil
 	retriesBefore := sy.Retries
 	epochBefore := sy.EpochTimers
@@ -106,6 +106,19 @@ func TestC07Drain(t *testing.T) {
 			drains++
 			drainAndCheck(t, w, c, rapid.IntRange(0, 3).Draw(t, "deep") == 0)
 		}
+		// A rotation while a state writer is inside the state store is
+		// followed at once by a drain half of the time: a later rotation
+		// would wake the release writer again and mask a lost wake-up.
+		rotate := acts["rotateDuringStateWrite"]
+		acts["rotateDuringStateWrite"] = func(t *rapid.T) {
+			before := h.RotationInStateWrite
+			rotate(t)
+			if h.RotationInStateWrite != before && rapid.Bool().Draw(t, "drainRightAfter") {
+				c.Add("drainAfterRotation")
+				drains++
+				drainAndCheck(t, w, c, false)
+			}
+		}
 		t.Repeat(acts)
 		h.Quiesce()
 		drainAndCheck(t, w, c, true)
@@ -122,7 +135,7 @@ func TestC07Drain(t *testing.T) {
 		c.ClassIf(h.ReleaseInSync > 0, "release_writer_inside_data_sync")
 		c.ClassIf(h.FaultsInjected > 0, "faults_injected")
 		c.ClassIf(h.RotationInStateWrite > 0, "rotation_during_state_write")
-		c.ClassIf(h.RotationInReleaseWrite > 0, "rotation_attempted_during_release_state_write")
+		c.ClassIf(h.RotationInReleaseWrite > 0, "rotation_during_release_state_write")
 		c.ClassIf(w.St.BL.PopFronts > 0, "rotated")
 		c.ClassIf(w.Flags["r_started_inside_s_statewrite"] > 0, "r_started_inside_s_statewrite")
 		if h.FinalizeInSync > 0 || h.FinalizeInWrite > 0 || h.ReleaseInSync > 0 || h.FaultsInjected > 0 {
